@@ -37,6 +37,11 @@ Min(a, b) == IF a < b THEN a ELSE b
 SeqVisit(n, pulls) == IF Min(pulls, n) < n THEN ErrR("invalid_length") ELSE [r |-> "visit", m |-> "seq", pulled |-> n]
 MapVisit(n, pulls) == IF Min(pulls, n) < n THEN ErrR("invalid_length") ELSE [r |-> "visit", m |-> "map", pulled |-> n]
 
+\* the sequence / map access handed to the visitor announces (size_hint) exactly the number of elements / entries left:
+\* after the visitor pulled k of n, `n - k`.  No listed property depends on it (a hint is only a hint): the harness probes it
+\* on every value the visitor replay builds and reports deviations under the extension aspect X03.size_hint.
+AnnouncedSize(n, k) == n - Min(k, n)
+
 Respond(v, req, pulls) ==
   IF req = "ignored_any" THEN Visit("unit")
   ELSE IF req = "newtype_struct" THEN Visit("newtype_struct")
